@@ -6,6 +6,7 @@ import (
 	"sort"
 	"testing"
 
+	"github.com/New-JAMneration/JAM-Protocol/internal/blockchain"
 	"github.com/New-JAMneration/JAM-Protocol/internal/extrinsic"
 	"github.com/New-JAMneration/JAM-Protocol/internal/types"
 	"github.com/New-JAMneration/JAM-Protocol/internal/utilities/shuffle"
@@ -265,6 +266,60 @@ func TestVerifC20(t *testing.T) {
 				}
 				if len(ga.PublicKeys) != V || ga.PublicKeys[V-1].Ed25519 != vals[V-1].Ed25519 {
 					h.Viol("assign", ci, "", "public-keys-not-carried", map[string]any{"mode": mode, "slot": slot})
+				}
+				// G and G* as the block processing derives them from the posterior state (GP 11.21, 11.22): G = (P(η'2, τ'), κ');
+				// G* = (P(e, τ'-R), k) with (e, k) = (η'2, κ') when τ'-R lies in the epoch of τ', (η'3, λ') otherwise.
+				if int(slot) >= R && (mode == "tiny" || s%7 == 0) {
+					var e3 types.Entropy
+					copy(e3[:], r.Bytes(32))
+					lam := make(types.ValidatorsData, V)
+					for i := range lam {
+						lam[i] = vals[i]
+						lam[i].Ed25519[31] = 0xAA // the previous epoch's set: same indices, other keys
+					}
+					blockchain.ResetInstance()
+					ps := blockchain.GetInstance().GetPosteriorStates()
+					var eta types.EntropyBuffer
+					copy(eta[0][:], r.Bytes(32))
+					copy(eta[1][:], r.Bytes(32))
+					eta[2], eta[3] = e, e3
+					ps.SetEta(eta)
+					ps.SetTau(slot)
+					ps.SetKappa(append(types.ValidatorsData(nil), vals...))
+					ps.SetLambda(lam)
+					g, gerr := extrinsic.GFunc(map[types.Ed25519Public]bool{})
+					gs, gserr := extrinsic.GStarFunc(map[types.Ed25519Public]bool{})
+					prev := int(slot) - R
+					sameEpoch := prev/E == int(slot)/E
+					shS, wantKeys := sh, vals
+					if !sameEpoch {
+						shS, wantKeys = modelShuffle(base, [32]byte(e3)), lam
+					}
+					rotS := uint32((prev % E) / R)
+					bad := ""
+					switch {
+					case gerr != nil || gserr != nil:
+						bad = fmt.Sprint("error: ", gerr, gserr)
+					case len(g.CoreAssignments) != V || len(gs.CoreAssignments) != V || len(gs.PublicKeys) != V:
+						bad = "wrong length"
+					default:
+						for i := 0; i < V && bad == ""; i++ {
+							if uint32(g.CoreAssignments[i]) != (sh[i]+rot)%uint32(C) || g.PublicKeys[i].Ed25519 != vals[i].Ed25519 {
+								bad = fmt.Sprintf("G differs from (P(η'2, τ'), κ') at validator %d", i)
+							} else if uint32(gs.CoreAssignments[i]) != (shS[i]+rotS)%uint32(C) {
+								bad = fmt.Sprintf("G* cores differ from P(e, τ'-R) at validator %d (τ'-R in the same epoch: %v)", i, sameEpoch)
+							} else if gs.PublicKeys[i].Ed25519 != wantKeys[i].Ed25519 {
+								bad = fmt.Sprintf("G* uses the wrong validator set at validator %d (τ'-R in the same epoch: %v)", i, sameEpoch)
+							}
+						}
+					}
+					if bad != "" {
+						h.Viol("assign", ci, "", "G / G* derived from the posterior state differ from GP 11.21 / 11.22", map[string]any{"mode": mode, "slot": slot, "slot_in_epoch": int(slot) % E, "why": bad})
+					}
+					h.Inc("g_and_gstar_compared")
+					if !sameEpoch {
+						h.Inc("gstar_from_the_previous_epoch")
+					}
 				}
 				h.Inc("assignments_" + mode)
 				h.Distinct("as", mode, e[:], int(slot))
